@@ -176,7 +176,8 @@ impl<G: SerializeElement> SerializeElement for Vec<G> {
             where
                 A: SeqAccess<'de>,
             {
-                let mut elems = Vec::with_capacity(seq.size_hint().unwrap_or(0));
+                // Never trust the announced length for pre-allocation.
+                let mut elems = Vec::with_capacity(seq.size_hint().unwrap_or(0).min(4096));
                 while let Some(elem) = seq.next_element::<DeWrapper<G>>()? {
                     elems.push(elem.0);
                 }
@@ -245,7 +246,9 @@ impl<G: SerializeElement, const N: usize> SerializeElement for [G; N] {
             {
                 let mut elems = ArrayVec::new();
                 while let Some(elem) = seq.next_element::<DeWrapper<G>>()? {
-                    elems.push(elem.0);
+                    elems
+                        .try_push(elem.0)
+                        .map_err(|_| de::Error::custom("wrong number of elements for array"))?;
                 }
                 elems
                     .into_inner()
